@@ -2,6 +2,11 @@
 
 package model
 
+// C13 (determinism): every function below belongs to it - its effect clause (no random, clock or environment
+// effect beyond the declared ones), frame, call preconditions and loop invariants are proved for every iteration
+// order of every map it ranges over.
+//@ fileprops C13
+
 // Contracts for the deductive verifier in /verif (govc).  This file contains comments only;
 // it is compiled only with -tags verif and declares nothing.
 
@@ -418,12 +423,14 @@ package model
 //@   ensures !ok ==> r == nil
 //@
 //@ func IterateStructFields(structNode, cb)
+//@   props C05, C04
 //@   reveal wfNode, assignExpr, matcherExpr, exprType, objNameOf, parentOf, returnsError, objNullable, nullCheckExpr
 //@   requires wfNode(structNode)
 //@   use T0(derefT(exprType(structNode))), T0(underlying(derefT(exprType(structNode))))
 //@   iterates cb count nFieldsOf(exprType(structNode)) elem box(StructFieldNode{parent: structNode, field: fieldAt(structOf(exprType(structNode)), $i)})
 //@   iter IterateFields invariant $it.next == $k && $it.stopped == $done
 //@ func IterateStructMethods(structNode, cb)
+//@   props C05, C04
 //@   reveal wfNode, assignExpr, matcherExpr, exprType, objNameOf, parentOf, returnsError, objNullable, nullCheckExpr
 //@   requires wfNode(structNode)
 //@   use T0(derefT(exprType(structNode)))
